@@ -132,7 +132,8 @@ def gen_pair(run, i):
     rng = run.rng
     mode = ["dst", "src", "both"][i % 3]
     for _ in range(50):
-        spec = mapgen.gen_pair(rng, force={"flags": {"way": rng.choice(["both"] * 5 + ["toonly", "fromonly"])}})
+        spec = mapgen.gen_pair(rng, force={"flags": {"way": rng.choice(["both"] * 5 + ["toonly", "fromonly"])},
+                                           "no_underscore": True})   # accessor names of `_` fields: not in C15's grammar
         rj = [j for j in spec["jobs"] if j["src"] == spec["root"]][0]
         # inner struct pairs never have identical layouts (a pointer to such a pair as constructor parameter is the
         # open finding K_map_ctor_ptr_conv)
@@ -148,10 +149,13 @@ def gen_pair(run, i):
                     for f in d["fields"]:
                         if f["emb"] and f["ty"][0] == "ptr" and rng.random() < 0.8:
                             f["ty"] = f["ty"][1]
+        # set-only fields (setter without getter): healthy on a side that is only WRITTEN under the pair's -way
+        # (read in a generated direction they are the open finding K_map_setonly_read)
+        way = spec["flags"]["way"]
         if mode in ("src", "both"):
-            mapgen.to_shootnew(rng, spec, "src", rj["src"])
+            mapgen.to_shootnew(rng, spec, "src", rj["src"], allow_setonly=(way == "fromonly"))
         if mode in ("dst", "both"):
-            mapgen.to_shootnew(rng, spec, "dst", rj["dst"])
+            mapgen.to_shootnew(rng, spec, "dst", rj["dst"], allow_setonly=(way == "toonly"))
         # the other side keeps its embedded structs only if it stays plain
         return spec
     raise lib.CheckBroken("generator")
@@ -171,9 +175,12 @@ def main(run):
     for p in pairs:
         p.cases = c05.gen_cases(run, p.spec, 4 if run.thorough() else 3, [0.0, 0.3, 0.6], rt=False)   # round trips: C05 only
     mh.execute(run, pairs, shoot=shoot, par=4, tag="c15", pre=pre_shootnew)
-    verdicts, guards = mh.coq_verdicts(run, pairs, tag="c15", shard_cases=120, par=4, fn="mismatches15", guard="pair_guard15")
+    masks = {}
+    verdicts, guards = mh.coq_verdicts(run, pairs, tag="c15", shard_cases=120, par=4, fn="mismatches15", guard="pair_guard15",
+                                       masks=masks)
     c05.report(run, pairs, verdicts, guards,
-               "C15_ctor_args / C15_setters_once / C15_plain_equivalent",
+               "C15_set_at_most_once_paths / C15_not_covered_by_ctor_paths / C15_ctor_args_to / C15_ctor_args_from / "
+               "C15_writes_through_setters (plan level); the VALUES are compared with Model/MapperSpec15.v (Pb15, no theorem)",
                "L2:C15:generated ToX/FromX over shoot-new types vs Model/Mapper.v+MapperEval.v")
     if not proof_ok and not run.violations:
         run.proof_failure_violation()
@@ -200,8 +207,9 @@ def main(run):
         "evaluations": ncases,
         "distinct_nontrivial": len(distinct),
         "rule": ("%d pairs of harness/mapgen.py (as C05) whose source root type, destination root type or both (rotating) are "
-                 "rendered as flat `shoot new -getset` types: 75%% of the plain fields unexported with directive none/get "
-                 "(set-only fields are the open finding K_map_setonly_read and stay out of the stream), 40%% of the types with "
+                 "rendered as `shoot new -getset` types (half of them embedding a shoot-new base, by value or pointer): 75%% of the plain "
+                 "fields unexported with directive none/get, and set (set-only) on a side that is only written under the pair's "
+                 "-way (read in a generated direction a set-only field is the open finding K_map_setonly_read), 40%% of the types with "
                  "a `new`-restricted constructor; the real shoot new output is generated and its constructor/accessor tables "
                  "are read back; 3 sentinel value sets per direction (nil probability 0/0.3/0.6), nil receiver/argument, "
                  "clean and dirty receivers; non-trivial = distinct (pair, direction, non-nil input) that returned a value"
@@ -211,6 +219,9 @@ def main(run):
         "programs": 2 * len(ok_pairs) + 1,
         "pairs": len(pairs), "pairs_compiled": len(ok_pairs),
         "pairs_in_guard": sum(1 for p in ok_pairs if guards.get(p.idx)),
+        "guard15_failed_by_clause": {name: sum(1 for p in ok_pairs if masks.get(p.idx, 0) & (1 << k))
+                                     for k, name in enumerate(["tag_guard15", "source_side", "destination_side", "manual_methods",
+                                                               "ToX_clauses", "FromX_clauses", "plain_job_outside_C05_guard"])},
         "pairs_using_a_constructor": ctor_used,
         "features": dict(sorted(feats.items())),
         "observations": dict(collections.Counter(c["obs"][0] for p in ok_pairs for c in p.cases)),
@@ -219,7 +230,8 @@ def main(run):
         "the constructor and accessor tables of the shoot-new side are read back from the real `shoot new -getset` output "
         "(regular expressions on the generated text); the generated constructor/accessors are modelled as field "
         "initialisation / field read / field write",
-        "shoot-new types with embedded structs are outside the C15 stream",
+        "constructor parameters of alias types (`type X = int`, *types.Alias since Go 1.23) make zeroValue return \"\" and "
+        "shoot exit through logx.Fatal; aliases are outside the type palette and the model's make_ctor_match is total",
     ])
 
 
